@@ -1,6 +1,7 @@
 import DigModel.Proofs.Lookup
 import DigModel.Proofs.ApiLemmas
 import DigModel.Proofs.Shape
+import DigModel.Proofs.ProvApi
 /-
   C01 — Injected values are exactly the registered constructors' outputs (resolution rule).
 
@@ -17,8 +18,12 @@ import DigModel.Proofs.Shape
   * `C01_nothing`: with no provider on the path: zero value for an optional parameter, `errMissingTypes`
     for a required one, and nothing happens to the state;
   * `C01_invoked_once`: a successful Invoke entered the invoked function exactly once, as the last thing it did.
-  That cached values are outputs of the providers registered for the key (cache justification) is the
-  remaining part of the master invariant; it is covered by the correspondence check (provenance tokens).
+  * `C01_args_from_successful_executions` (whole programs, invariant `Prov`): every token that occurs in an
+    argument of any execution of any user function (constructor, decorator or invoked function) was returned
+    by an execution run for a constructor or decorator node that had **exited successfully earlier in the
+    history** — never by the invoked function, by a failed execution, or by one that has not finished.
+  That a cached value sits under the *key* its producer declared (the remaining part of cache justification)
+  is covered by the correspondence check (provenance tokens carry the result slot).
 -/
 namespace Dig.C01
 
@@ -146,7 +151,22 @@ theorem C01_invoked_once (ctx : Ctx) (hnd : ctx.cfg.dry = false) (fn : Fn) (st :
   · exact absurd rfl (hne hok hnd)
   · exact ⟨l, x, args, r, he, hb.who⟩
 
+theorem C01_args_from_successful_executions (p : Program) (i : Nat) (w : Who) (g y : Nat) (args : List Val)
+    (hent : (runProgram p).1.hist[i]? = some (.enter w g y args)) (a : Val) (ha : a ∈ args)
+    (f x : Nat) (htok : (f, x) ∈ a.toks) :
+    ∃ j who, j < i ∧ who ≠ .invoked ∧ (runProgram p).1.hist[j]? = some (.exit who f x .ok) := by
+  obtain ⟨who, hw, hok⟩ := (prov_program p).args i w g y args hent a ha (f, x) htok
+  obtain ⟨j, hj⟩ := List.getElem?_of_mem hok
+  have hlt : j < i := by
+    by_cases h : j < i
+    · exact h
+    · rw [List.getElem?_take_eq_none (Nat.le_of_not_lt h)] at hj; cases hj
+  refine ⟨j, who, hlt, hw, ?_⟩
+  rw [List.getElem?_take_of_lt hlt] at hj
+  exact hj
+
 #print axioms C01_decorator_wins
+#print axioms C01_args_from_successful_executions
 #print axioms C01_decorated_cache
 #print axioms C01_cached_value
 #print axioms C01_provided
